@@ -348,9 +348,10 @@ impl<'a> CaseRunner<'a> {
     }
   }
 
-  /// K5 classifier (well-formed programs): pie diagnosed a hidden dependency between reader X and writer W. True iff
-  /// from scratch X reaches W through some task P (or P = W's requirer chain member) that, at the moment of the abort,
-  /// is still in the state an earlier aborted execution left it in, and the declared dependencies hold no path X ~> W.
+  /// K5 classifier: pie diagnosed a hidden dependency between reader X and writer W. True iff the declared dependencies
+  /// hold no path X ~> W while X reaches (from scratch, or over its recorded dependencies) some task P that, at the
+  /// moment of the abort, is still in the state an earlier aborted execution left it in, and P - run from scratch in
+  /// the current state - reaches W.
   fn path_through_aborted_task(&mut self, rec: &SessionRec, msg: &str) -> bool {
     let (_res, tasks) = parse_abort(msg);
     if tasks.len() < 2 { return false; }
@@ -365,8 +366,11 @@ impl<'a> CaseRunner<'a> {
     r.lenient = true;
     let known: Vec<u32> = self.drv.shadow.known.iter().copied().collect();
     for t in &known { r.eval(*t); }
-    if r.viol.is_some() || !r.reaches(x, w) { return false; }
-    (0..p.n_tasks() as u32).any(|t| t != x && sh.tasks[t as usize].status == Status::Partial && r.reaches(x, t) && (t == w || r.reaches(t, w)))
+    if r.viol.is_some() { return false; }
+    // the reader reaches the aborted task either as it would now (from scratch) or over the dependencies it recorded
+    // when it last ran (it may not have been re-validated yet in this build); from the aborted task onwards only the
+    // from-scratch structure is known, its own recorded dependencies are what the abort destroyed
+    (0..p.n_tasks() as u32).any(|t| t != x && sh.tasks[t as usize].status == Status::Partial && (r.reaches(x, t) || sh.reaches(x, t)) && (t == w || r.reaches(t, w)))
   }
 
   /// Whether some task is still in the state an aborted execution of an *earlier* session left it in.
